@@ -69,7 +69,14 @@ def run(ctx):
             ctx.check(not has_kid, rule, "collector.term:%s:leaf" % "|".join(vs),
                       "collector arm %s visits nothing although it has sub-terms" % vs, [facts.bodies()[COLLECTOR + "term"]["loc"][0], a["ln"]],
                       detail={"variants": vs, "leaf": True})
-    # ---- program builder: no cache, fresh allocation --------------------------------------------------------------------
+    rule_fresh_clone(ctx)
+    ctx.assume("the theorem 'these scoping rules imply alpha-invariance of behaviour' is NOT decided; the golden scope table is my "
+               "audited reading of the language's scoping rules")
+    return {}
+
+
+def rule_fresh_clone(ctx):
+    facts = ctx.facts
     rule = "fresh-clone"
     ctx.rule(rule, "TextualProgramBuilder has exactly the fields {graph, parser} (no SourceId -> TermId cache) and every node it returns "
                    "is allocated by its parser")
@@ -101,9 +108,6 @@ def run(ctx):
         ctx.check(not bad and outs, rule, "builder.%s:allocates" % f,
                   "TextualProgramBuilder::%s can return %s: an id of the source arena instead of a freshly allocated node" % (f, bad),
                   facts.bodies()[fn]["loc"], detail={"fn": f, "results": len(outs)})
-    ctx.assume("the theorem 'these scoping rules imply alpha-invariance of behaviour' is NOT decided; the golden scope table is my "
-               "audited reading of the language's scoping rules")
-    return {}
 
 
 def _results(body):
